@@ -6,6 +6,7 @@
 // of the seeded scheduler, so calls overlap *inside* each other. Oracles: ownership invariant on
 // every access; results and final memory equal to the sequential execution of the same programs.
 #include <iconv.h>
+#include <pthread.h>
 #include <linux/hw_breakpoint.h>
 #include <linux/perf_event.h>
 #include <sys/ioctl.h>
@@ -113,7 +114,7 @@ static std::string gen(const std::string &prop, uint64_t base, uint64_t idx, boo
 #else
     bool guard = idx % 5 == 3;
 #endif
-    line(strf("cfg tasks=%d sched=%s sseed=0x%llx layout=%s env=%d hw=%d", ntasks, sched.c_str(), (unsigned long long)r.next(), guard ? "guard" : "packed", (int)((idx / 3) % 2), (int)(!guard && idx % 4 == 2)));
+    line(strf("cfg tasks=%d sched=%s sseed=0x%llx layout=%s env=%d hw=%d thr=%d", ntasks, sched.c_str(), (unsigned long long)r.next(), guard ? "guard" : "packed", (int)((idx / 3) % 2), (int)(!guard && idx % 4 == 2), (int)(idx % 3 == 1)));
     int next_obj = 0;
     std::vector<std::string> objlines, calllines;  // (set-up calls come first in calllines)
     auto new_obj = [&](int task, size_t size, bool shared = false) {
@@ -345,9 +346,10 @@ struct World {
     // the running call: they see every store, whoever makes it - inline assembly, libc, a function opted out of instrumentation - and
     // also a store that writes back the value that was there (a read-modify-write of a neighbour loses the neighbour's concurrent update)
     bool hw = false;
-    int hw_fd[2] = {-1, -1};
+    bool on_worker_thread = false;
+    int hw_fd[4] = {-1, -1, -1, -1};  // [0],[1]: behind / before the principal object; [2],[3]: the same for the object the call writes its result to
     bool hw_failed = false;
-    struct HwWatch { uintptr_t addr[2] = {0, 0}; unsigned len[2] = {0, 0}; int obj = -1; };
+    struct HwWatch { uintptr_t addr[4] = {0, 0, 0, 0}; unsigned len[4] = {0, 0, 0, 0}; int obj = -1, obj_dst = -1; };
     HwWatch hw_task[8];
     uint64_t pr_hw_armed = 0;
     uint64_t events = 0;
@@ -485,29 +487,34 @@ static void hw_program(int k, uintptr_t addr, unsigned len) {
 }
 static void hw_off() {
     World &w = *W;
-    for (int k = 0; k < 2; k++) if (w.hw_fd[k] >= 0) ioctl(w.hw_fd[k], PERF_EVENT_IOC_DISABLE, 0);
+    for (int k = 0; k < 4; k++) if (w.hw_fd[k] >= 0) ioctl(w.hw_fd[k], PERF_EVENT_IOC_DISABLE, 0);
 }
 static void hw_on(int tid) {
     World &w = *W;
     const World::HwWatch &h = w.hw_task[tid & 7];
-    for (int k = 0; k < 2; k++) if (h.len[k]) hw_program(k, h.addr[k], h.len[k]);
+    for (int k = 0; k < 4; k++) if (h.len[k]) hw_program(k, h.addr[k], h.len[k]);
 }
 // called when task `tid` enters a library call whose principal object is o: watch what lies next to o, unless it is the task's own
-static void hw_enter(int tid, const Obj &o) {
+static void hw_enter(int tid, const Obj &o, const Obj *dst) {
     World &w = *W;
     if (!w.hw || w.hw_failed || tid < 0) return;
     World::HwWatch &h = w.hw_task[tid & 7];
     h = World::HwWatch();
     h.obj = o.id;
-    uintptr_t start = (uintptr_t)o.p, end = start + o.size;
+    h.obj_dst = dst ? dst->id : -1;
     auto lowbit = [](uintptr_t x) { unsigned l = 8; while (l > 1 && (x & (l - 1))) l >>= 1; return l; };
-    unsigned la = lowbit(end);
     auto any_owned = [&](uintptr_t a, unsigned n) { for (unsigned i = 0; i < n; i++) if (owned_by(tid, a + i)) return true; return false; };
-    while (la >= 1 && any_owned(end, la)) la >>= 1;  // (the window shrinks until none of its bytes belongs to the caller itself)
-    if (la) { h.addr[0] = end; h.len[0] = la; }
-    unsigned lb = lowbit(start);
-    while (lb >= 1 && any_owned(start - lb, lb)) lb >>= 1;
-    if (lb) { h.addr[1] = start - lb; h.len[1] = lb; }
+    auto around = [&](const Obj &x, int k) {
+        uintptr_t start = (uintptr_t)x.p, end = start + x.size;
+        unsigned la = lowbit(end);
+        while (la >= 1 && any_owned(end, la)) la >>= 1;  // (the window shrinks until none of its bytes belongs to the caller itself)
+        if (la) { h.addr[k] = end; h.len[k] = la; }
+        unsigned lb = lowbit(start);
+        while (lb >= 1 && any_owned(start - lb, lb)) lb >>= 1;
+        if (lb) { h.addr[k + 1] = start - lb; h.len[k + 1] = lb; }
+    };
+    around(o, 0);
+    if (dst && dst != &o && !dst->shared) around(*dst, 2);
     w.pr_hw_armed++;
     hw_on(tid);
 }
@@ -861,7 +868,8 @@ static uint64_t do_call(const Call &c, bool &skipped) {
     uint64_t res = 0;
     int tid = w.tasks.cur() ? w.tasks.cur()->id : -1;  // -1: set-up phase (main context, not monitored)
     if (tid >= 0) w.in_shared_call[tid] = o->shared;
-    auto enter = [&] { errno = stale_errno(c); if (tid >= 0) { w.in_call[tid] = 1; w.call_steps[tid & 7] = 0; snprintf(w.cur_fn, sizeof w.cur_fn, "%s%s%s", c.fn.c_str(), c.fmt.empty() ? "" : ".", c.fmt.c_str()); hw_enter(tid, *o); } w.calls++; };
+    Obj *hw_dst = nullptr;  // the object the call delivers its result into, if it is not the principal one
+    auto enter = [&] { errno = stale_errno(c); if (tid >= 0) { w.in_call[tid] = 1; w.call_steps[tid & 7] = 0; snprintf(w.cur_fn, sizeof w.cur_fn, "%s%s%s", c.fn.c_str(), c.fmt.empty() ? "" : ".", c.fmt.c_str()); hw_enter(tid, *o, hw_dst); } w.calls++; };
     auto leave = [&] { if (tid >= 0) { hw_leave(tid); w.in_call[tid] = 0; } };
     // callers never hand a shared (read-only) object to a function that writes its argument
     if (tid >= 0 && o->shared && c.fn != "get" && c.fn != "vss_decode" && c.fn != "vss_pathlen" && c.fn != "can_paylen" && c.fn != "can_payoff") { skipped = true; return 0; }
@@ -999,6 +1007,7 @@ static uint64_t do_call(const Call &c, bool &skipped) {
             valbytes = 2 + abytes;
         } else if (!valbytes) { skipped = true; return 0; }
         if (o->size < 12 + pathbytes + valbytes || (am != 1 && (!o2 || o2->size < plen)) || (vss_is_var(dt) && (!o3 || o3->size < abytes))) { skipped = true; return 0; }
+        hw_dst = o3 ? o3 : o2;
         enter(); res = drv_vss_decode(o->p, o2 ? (char *)o2->p : nullptr, o3 ? o3->p : nullptr); leave();
         if (o2) res ^= hash_bytes(o2->p, plen);
         if (o3) res ^= hash_bytes(o3->p, abytes) << 1;
@@ -1160,6 +1169,7 @@ static void exec(const std::string &text, bool verbose) {
             w.guard_layout = kv.str("layout", "packed") == "guard";
             w.env_on = kv.u64("env", 0);
             w.hw = kv.u64("hw", 0);
+            w.on_worker_thread = kv.u64("thr", 0);
             if (w.guard_layout) cursor = kPage;
             w.prog.assign(ntasks, {});
         } else if (kv.op == "obj") {
@@ -1262,6 +1272,7 @@ static void exec(const std::string &text, bool verbose) {
     if (w.pr_libc_state) g_res.counters["libc_calls_with_state_object_by_library_code"] = w.pr_libc_state;
     if (w.pr_libc_dest) g_res.counters["libc_calls_writing_through_a_pointer_by_library_code"] = w.pr_libc_dest;
     if (w.hw) { g_res.counters[w.hw_failed ? "hw_watchpoints.unavailable" : "hw_watchpoints.runs"] = 1; g_res.counters["hw_watchpoints.calls_watched"] = w.pr_hw_armed; }
+    if (w.on_worker_thread) g_res.counters[syscall(SYS_gettid) != getpid() ? "cfg.run_on_a_second_os_thread" : "cfg.second_os_thread_unavailable"] = 1;
     g_res.counters["scen." + saved_policy] = 1;
     g_res.counters[w.guard_layout ? "layout.guard_pages" : "layout.packed"] = 1;
     sim::finish_run(g_res);
@@ -1342,7 +1353,8 @@ static void fatal_handler(int sig, siginfo_t *si, void *uc) {
         int cur = W->tasks.cur()->id;
         const World::HwWatch &h = W->hw_task[cur & 7];
         const Obj *o = nullptr;
-        for (auto &x : W->objs) if (x.id == h.obj) o = &x;
+        bool is_dst = h.obj_dst >= 0 && ((h.len[2] && a >= h.addr[2] && a < h.addr[2] + 8) || (h.len[3] && a >= h.addr[3] && a < h.addr[3] + 8));
+        for (auto &x : W->objs) if (x.id == (is_dst ? h.obj_dst : h.obj)) o = &x;
         bool after = o && a >= (uintptr_t)o->p + o->size;
         snprintf(what, sizeof what, " hw=task-%d-stored-to-the-bytes-%s-object-%d(%zu-bytes)-of-its-call", cur, after ? "right-behind" : "right-before", o ? o->id : -1, o ? o->size : (size_t)0);
     }
@@ -1361,6 +1373,24 @@ static void exec_entry(const std::string &text, bool verbose) {
     sa.sa_sigaction = fatal_handler;
     sa.sa_flags = SA_SIGINFO | SA_ONSTACK;
     for (int s : {SIGSEGV, SIGBUS, SIGFPE, SIGILL, SIGABRT, SIGTRAP}) sigaction(s, &sa, nullptr);
+    // A library is mostly called from threads other than the initial one; code can tell (gettid() != getpid(), stack limits, ...).
+    // In the runs that say so the whole execution - set-up, sequential and interleaved phase - takes place on a second OS thread.
+    if (text.find(" thr=1") != std::string::npos) {
+        struct Arg { const std::string *text; bool verbose; } arg{&text, verbose};
+        pthread_attr_t at;
+        pthread_attr_init(&at);
+        pthread_attr_setstacksize(&at, 16u << 20);
+        pthread_t th;
+        auto body = [](void *p) -> void * {
+            static uint8_t altstack2[65536];
+            stack_t ss2 = {altstack2, 0, sizeof altstack2};
+            sigaltstack(&ss2, nullptr);
+            Arg *a = (Arg *)p;
+            exec(*a->text, a->verbose);
+            return nullptr;
+        };
+        if (pthread_create(&th, &at, body, &arg) == 0) { pthread_join(th, nullptr); return; }
+    }
     exec(text, verbose);
 }
 
